@@ -51,15 +51,18 @@ func init() {
 			{"valtab", "A6", 1, "no shift by a possibly negative signed count"},
 			{"vmshape", "V3", 70, "the VM hands the operands to the operator in (left, right) order with the opcode of the instruction"},
 			{"vmshape", "V5", 3, "the increment instruction applies the same '+' (Arith ADD with the integer 1) as the general form"},
+			{"bcai", "B11", 25, "x + 1 is only compiled to the integer increment for the integer literal 1"},
 		},
-		Technique:  "abstract interpretation of every operator method of package value over all kind pairs with symbolic payloads; the extracted case table is compared with the documented algebra written as data",
-		Decides:    "for all operand values: which cases every operator distinguishes on every pair of operand kinds, the Go primitive and conversions applied in each, the error class of every other pair, the zero-divisor guard, symmetry of == and != as its negation, and the exact index bounds; the VM side binding of operands to receiver/argument.",
-		NotDecided: "floating point results, overflow wrap-around and NaN ordering (Go semantics, trusted); element-wise array comparison is summarised (the recursive call is not unfolded); the laws about lengths of slices and concatenations follow from Go's slice semantics and are not re-derived.",
+		Technique:   "abstract interpretation of every operator method of package value over all kind pairs with symbolic payloads; the extracted case table is compared with the documented algebra written as data",
+		Decides:     "for all operand values: which cases every operator distinguishes on every pair of operand kinds, the Go primitive and conversions applied in each, the error class of every other pair, the zero-divisor guard, symmetry of == and != as its negation, and the exact index bounds; the VM side binding of operands to receiver/argument.",
+		NotDecided:  "floating point results, overflow wrap-around and NaN ordering (Go semantics, trusted); element-wise array comparison is summarised (the recursive call is not unfolded); the laws about lengths of slices and concatenations follow from Go's slice semantics and are not re-derived.",
 		Assumptions: []string{"loops over array payloads are explored for 0 and 1 iterations, the recursive element comparison is treated as an opaque (bool, error) pair"},
 	})
 	RegisterSpec(&Spec{
 		ID: "C15", Title: "Encodings are lossless and size limits are enforced, never wrapped",
 		Rules: []RuleRef{
+			{"pipeline", "P7", 1, "a refused program ends the process: the operand-limit abort is never swallowed into a session that continues on half-compiled code"},
+			{"vmshape", "V13", 2, "RET hands a returned function on with the same node, parameter count and local count: it is re-pointed at the copied frame, or rebuilt with the fields in NewFunction's parameter order"},
 			{"enc", "E1", 9, "every instruction field is read back with the shift and width it was written with; fields are disjoint"},
 			{"enc", "E2", 1, "the operand range the encoder accepts is the range the decoder can return"},
 			{"enc", "E3", 55, "opcodes fit their field; base opcodes stay below the temp flag; every TMP opcode is TempFlag|base"},
@@ -95,6 +98,8 @@ func init() {
 			{"own", "O8", 20, "frame layout: PushFrame writes (start, end), every reader uses the same pair; locals nil-initialised; clone copies the whole frame"},
 			{"vmshape", "V7", 6, "CALL pushes frame, closure, return address; RET pops them symmetrically"},
 			{"enc", "E6", 3, "the function value counts every local the encoding can address"},
+			{"strw", "S3", 20, "two variables of a function never share a frame slot and every slot lies below LocalCnt: an existing variable keeps its slot, a new one (assignment or loop variable) takes the next free one"},
+			{"strw", "S4", 2, "parameters take slots 0..n-1, LocalCnt is the size of the scope after the body"},
 		},
 		Technique:  "abstract interpretation of every memory.Type method over a symbolic memory; the symbolic effects (fields, element stores, copies) are compared with the frame layout and growth rules",
 		Decides:    "for all sp / fp / stack contents: the effect of each memory operation on sp, fp, closure and stack, that room is ensured before writes above sp, that the frame pair written by PushFrame is the one every reader uses, that new locals are nil, that a clone owns its growable storage and receives the whole top frame, and that the VM's CALL/RET use these operations symmetrically.",
@@ -134,6 +139,7 @@ func init() {
 			{"pipeline", "P3", 2, "a script line is never dropped: the reader returns whole lines of any length and a last line without line break is processed"},
 			{"pipeline", "P4b", 1, "statement boundaries are computed on exactly the text that is handed to the parser"},
 			{"pipeline", "P4", 1, "statement boundaries respect lexical context (strings, comments)"},
+			{"lexfsm", "L4", 40, "a line break yields its EOL whatever precedes it (comment, blank): the modes lay the same program out differently (script mode repeats the line breaks of a multi-line statement, the REPL and -eval do not)"},
 		},
 		Technique:  "must-pass-through / provenance rules on the SSA of the three drivers; abstract interpretation of node.Loop over two reads",
 		Decides:    "that -eval, REPL and script mode run the same Parse -> STRewrite -> ByteCode -> Run chain over every statement of the parse result and nothing after a parse error; that the script reader loses no line (length, missing final line break); that the boundary heuristic counts on the text it parses.",
@@ -147,13 +153,15 @@ func init() {
 			{"strw", "S3", 6, "assignments and loop variables inside a function always target the function's own slot; the right-hand side / iterators are resolved first"},
 			{"strw", "S4", 2, "a function literal opens a fresh scope with its parameters at 0..n-1; LocalCnt covers every slot handed out"},
 			{"vmshape", "O7", 2, "only MOV and INC write variables, Set for locals and SetGlobal for globals"},
+			{"bcai", "B11", 25, "an assignment inside a function writes the function's own variable: the increment shortcut is not taken when the right-hand side reads an outer variable of the same name"},
+			{"own", "O2", 6, "a forked iterator context sees the globals and the closure frames of the function that forked it, also when its memory is recycled"},
 			{"vmshape", "V7", 6, "CALL pushes frame+closure+return address, RET pops them symmetrically"},
 			{"vmshape", "V13", 2, "a returned function value is detached from the dying frame"},
 			{"vmshape", "V13b", 1, "function values nested in a returned array are detached too"},
 		},
-		Technique:  "abstract interpretation of every STRewrite method (opaque children, enumerated scope membership); VM handler effects for variable writes and call/return",
-		Decides:    "for every node type and every combination of scopes defining a name (table depth 0..3): what a read, an assignment, a loop variable and a function literal are rewritten to; that only MOV/INC write variables and locals/globals go to Set/SetGlobal; call/return symmetry and frame detachment of returned functions.",
-		NotDecided: "the run-time consequence for every program (closures escaping through yield, behaviour once the captured-frame aliasing of C03 bites); that the compiler maps Local/Closure/Name to Lcl/Cls/Gbl operands (compiler rules).",
+		Technique:   "abstract interpretation of every STRewrite method (opaque children, enumerated scope membership); VM handler effects for variable writes and call/return",
+		Decides:     "for every node type and every combination of scopes defining a name (table depth 0..3): what a read, an assignment, a loop variable and a function literal are rewritten to; that only MOV/INC write variables and locals/globals go to Set/SetGlobal; call/return symmetry and frame detachment of returned functions.",
+		NotDecided:  "the run-time consequence for every program (closures escaping through yield, behaviour once the captured-frame aliasing of C03 bites); that the compiler maps Local/Closure/Name to Lcl/Cls/Gbl operands (compiler rules).",
 		Assumptions: []string{"the rewrite of a name depends only on which scopes contain that name and at which index (data independence in the other names)"},
 	})
 	RegisterSpec(&Spec{
@@ -202,6 +210,7 @@ func init() {
 			{"bcai", "B3", 25, "jumps are patched once, into the node's own code; code is only appended"},
 			{"bcai", "B4", 25, "the result descriptor tells where the value is"},
 			{"bcai", "B6", 25, "conditions are tested with the right polarity"},
+			{"bcai", "B11", 25, "an assignment evaluates its right-hand side; the only shortcut is the increment of the assigned variable by the literal 1"},
 			{"bcai", "B9", 25, "tmp is never read after it may have been overwritten"},
 			{"bcai", "B10", 25, "operands address constants of the right type"},
 			{"vmshape", "V1", 60, "the VM fetches each operand from the slot the instruction names"},
@@ -213,9 +222,9 @@ func init() {
 			{"strw", "S3", 6, "assignment targets and their right-hand sides resolve as the language defines"},
 			{"strw", "S4", 2, "function literals open the scope the language defines"},
 		},
-		Technique:  "abstract interpretation of the compiler with tabulated child summaries (inductive over the tree), symbolic effect summaries of every VM handler, operator table of package value; relational comparison of what is emitted with what is accepted",
-		Decides:    "for all programs (all trees of the class table under all reachable flag contexts): emitted instruction shapes are accepted by the VM; operator identity lexeme -> opcode -> value method -> primitive; children compiled in source order into the operand slots the VM pops in reverse; every node's code is stack neutral up to its announced result; jumps resolve inside the node's code; tmp is read only while valid.",
-		NotDecided: "that the values computed agree with a reference evaluator (the meaning of each statement form, closure and iterator run-time behaviour, error precedence): run-time equivalences no static rule here stands for.",
+		Technique:   "abstract interpretation of the compiler with tabulated child summaries (inductive over the tree), symbolic effect summaries of every VM handler, operator table of package value; relational comparison of what is emitted with what is accepted",
+		Decides:     "for all programs (all trees of the class table under all reachable flag contexts): emitted instruction shapes are accepted by the VM; operator identity lexeme -> opcode -> value method -> primitive; children compiled in source order into the operand slots the VM pops in reverse; every node's code is stack neutral up to its announced result; jumps resolve inside the node's code; tmp is read only while valid.",
+		NotDecided:  "that the values computed agree with a reference evaluator (the meaning of each statement form, closure and iterator run-time behaviour, error precedence): run-time equivalences no static rule here stands for.",
 		Assumptions: []string{"child lists are explored with 0..3 elements (Block 2..3, loop variables 1..2)", "the class table of the grammar engine (which node types can occur in which field) after the symbol table rewrite"},
 	})
 	RegisterSpec(&Spec{
@@ -260,6 +269,7 @@ func init() {
 	RegisterSpec(&Spec{
 		ID: "C08", Title: "A session survives errors: a failed statement leaves no trace but its globals",
 		Rules: []RuleRef{
+			{"pipeline", "P7", 1, "a session is only resumed after errors that leave whole statements behind: no panic is recovered in the middle of a statement"},
 			{"vmshape", "V4", 90, "every failure inside Run takes the dumpStack path"},
 			{"vmshape", "O6", 1, "dumpStack resets the main context: memory, ip at the end of the code, child contexts"},
 			{"own", "O6", 2, "Reset drops sp, frame pointers and closure stack and keeps the globals"},
@@ -294,6 +304,7 @@ func init() {
 			{"bcai", "B4", 25, "result honesty in every context"},
 			{"bcai", "B9", 25, "tmp strategies never read a clobbered tmp (call in right operand, array literal, yield)"},
 			{"bcai", "B6", 25, "conditions are tested in every position, with negation folded correctly"},
+			{"bcai", "B11", 25, "v = v + 1 means the same for every kind of variable: the increment shortcut needs the identical resolved reference on both sides"},
 			{"bcai", "B1", 25, "no position-dependent operand kind the VM rejects"},
 			{"vmshape", "V5", 3, "INC computes operand+1 with the same method as '+' and stores like MOV"},
 			{"vmshape", "V10", 30, "JMPF and JMPT both demand a boolean; operator errors pass through unchanged"},
@@ -350,9 +361,9 @@ func init() {
 			{"lexfsm", "N7", 2, "the end-of-input marker handed to the state functions cannot be confused with a character of the text"},
 			{"lexfsm", "N4", 4, "EOL unless the last token is EOL, then EOF exactly once, then nothing"},
 		},
-		Technique:  "abstract interpretation of the lexer state functions and of Lexer.Next over character classes / symbolic spans; table checks against the documented token structure",
-		Decides:    "the complete transition table of the lexer (every state function evaluated over every behavioural character class) satisfies the documented token structure (L1-L4), and one iteration of Lexer.Next, interpreted symbolically, updates span, text and state exactly as the property requires (N1-N4).",
-		NotDecided: "the UTF-8 sizes returned by strings.Reader.ReadRune are trusted; the property is otherwise decided by the automaton.",
+		Technique:   "abstract interpretation of the lexer state functions and of Lexer.Next over character classes / symbolic spans; table checks against the documented token structure",
+		Decides:     "the complete transition table of the lexer (every state function evaluated over every behavioural character class) satisfies the documented token structure (L1-L4), and one iteration of Lexer.Next, interpreted symbolically, updates span, text and state exactly as the property requires (N1-N4).",
+		NotDecided:  "the UTF-8 sizes returned by strings.Reader.ReadRune are trusted; the property is otherwise decided by the automaton.",
 		Assumptions: []string{"strings.Reader.ReadRune returns sizes 1..4 and consumes exactly that many bytes", "the four sampled runes above 0x2ff stand for every rune the state functions do not compare against (checked: all rune constants in the state functions are below 0x2ff)"},
 	})
 }
